@@ -1,1 +1,3 @@
 -- modules of work area Silence (add imports here)
+import AM.Model.Silence
+import AM.Model.Silencer
